@@ -65,6 +65,9 @@ SkPrelude == <<
 SkFrom == Len(SkPrelude) + 1
 SkStart(body) == DefN(GStart, "const", TNone, Fn(<<>>, TVoid, body), "start")
 PrintE(e) == Ex(Call(Nm("print"), <<e>>))
+\* `from <path> use (<names>)`; the harness adds the file <path>.sy with text src to the project
+FromUse(path, names, src) == [k |-> "fromuse", path |-> path, names |-> names, src |-> src]
+MSrc == "ma :: fn a: int -> int do\n    a + 1\nend\nmb :: 5\nmc :: 6\n"
 
 \* value-returning function with a `loop true`, an early `ret`, `<!>` and a tail expression
 QDef == DefN(2010, "const", TNone,
@@ -99,7 +102,20 @@ SkPrograms == <<
   <<QDef, SkStart(<<PrintE(Call(Nm("q"), <<I(2)>>))>>)>>,
   <<Q2Def, SkStart(<<PrintE(Call(Call(Nm("q2"), <<I(2)>>), <<>>))>>)>>,
   <<QDef, Q2Def, SkStart(<<DefC(32, TFn(<<>>, TInt), Call(Nm("q2"), <<CG(I(1))>>)),
-                           Loop(Bo(TRUE), <<PrintE(CF(Call(V(32), <<>>), Call(Nm("q"), <<CH>>))), Break>>)>>)>>
+                           Loop(Bo(TRUE), <<PrintE(CF(Call(V(32), <<>>), Call(Nm("q"), <<CH>>))), Break>>)>>)>>,
+  \* 16: every bracket-like construct: enum and blob declaration, import list, blob literal, tuple, list, grouping,
+  \*     multi-line if / elif condition, case head, paren / prime / arrow argument lists
+  <<EnumD("Col", <<VD1("R", TInt), VD0("G"), VD1("W", TInt)>>),
+    BlobD("Pt", <<FD("x", TInt), FD("y", TInt), FD("z", TInt)>>),
+    FromUse("m", <<"ma", "mb", "mc">>, MSrc),
+    SkStart(<<DefC(41, TName("Pt"), BlobL("Pt", <<FI("x", Call(Nm("ma"), <<I(1)>>)), FI("y", Nm("mb")), FI("z", CF(Nm("mc"), CG(I(2))))>>)),
+              DefC(42, TTuple(<<TInt, TInt, TInt>>), Tup(<<Fld(V(41), "x"), CG(Fld(V(41), "y")), Bin("*", Bin("+", Fld(V(41), "z"), I(1)), I(2))>>)),
+              DefC(43, TList(TInt), Lst(<<Idx(V(42), 0), CF(Idx(V(42), 1), CH), Idx(V(42), 2)>>)),
+              Ex(If(<<ArmC(Bin("and", Bin(">", Fld(V(41), "x"), I(0)), Bin(">", CF(Fld(V(41), "y"), I(1)), I(0))), <<PrintE(V(43))>>),
+                      ArmC(Bin("or", Bin("<", CH, I(0)), Bin("==", Fld(V(41), "z"), I(3))), <<PrintE(V(42))>>),
+                      ArmE(<<PrintE(CF(I(1), Bin("+", CG(I(2)), I(3))))>>)>>)),
+              Ex(CaseT(Var1("Col", "R", CF(I(1), I(2))),
+                       <<CArmB("R", 44, <<PrintE(V(44))>>), CArm("G", <<PrintE(I(0))>>), CArmB("W", 45, <<PrintE(CG(V(45)))>>)>>))>>)>>
 >>
 
 (* ---------------------------------------------------------------- skeleton expressions of the token-level model *)
@@ -113,7 +129,7 @@ ModelPath == "t" \o ToString(SkFrom) \o ".e.s1"       \* the statement start.bod
 
 \* RAW choices of a skeleton expression: every option of every call site, redundant parentheses around at most one
 \* call node (or none), one mask for all brackets
-ModelSites(e) == SE(e, ModelPath \o ".e", "stmt", FALSE)
+ModelSites(e) == SE(e, ModelPath \o ".e", "stmt", FALSE, FALSE)
 RawChoices(e) ==
     LET S == ModelSites(e)
         C == OfKind(S, "c")
@@ -138,41 +154,55 @@ ModelLegal(e, ch) ==
 ModelSame(e, ch) == ModelParse(e, ModelPath, ch) = Show(e)
 
 (* ---------------------------------------------------------------- the variant universe of a program *)
-Pattern(S, IX, cv, tv, lv, pv, sv, bv) ==
-    Pref(IX, LAMBDA i : CASE S[i].kind = "c" -> Cap(S[i], cv) [] S[i].kind = "t" -> Cap(S[i], tv) [] S[i].kind = "l" -> Cap(S[i], lv)
-                          [] S[i].kind = "p" -> Cap(S[i], pv) [] S[i].kind = "s" -> sv [] S[i].kind = "b" -> bv)
+\* one option per site kind: o = [c, t, l, p, s, y] where y is the layout value given to every b@ / g@ / o@ / d@ site
+\* (each site keeps the mask bits it has)
+Pattern(S, IX, o) ==
+    Pref(IX, LAMBDA i : CASE S[i].kind = "c" -> Cap(S[i], o.c) [] S[i].kind = "t" -> Cap(S[i], o.t) [] S[i].kind = "l" -> Cap(S[i], o.l)
+                          [] S[i].kind = "p" -> Cap(S[i], o.p) [] S[i].kind = "s" -> o.s [] S[i].kind \in {"b", "g", "o", "d"} -> o.y)
+PV(c, t, l, p, s_, y) == [c |-> c, t |-> t, l |-> l, p |-> p, s |-> s_, y |-> y]
 
+TC == 4  TCB == 11  TBC == 12  CBC == 16  BC == 8  C1 == 2  B1 == 3  T1 == 1       \* names of some trivia sequences (TrivSeqs[n + 1])
 SingleVals(s) == CASE s.kind \in {"c", "t", "l"} -> 1..(s.n - 1)
                    [] s.kind = "p" -> {1, 2}
                    [] s.kind = "s" -> {1, 2, 4, 8, 15}
-                   [] s.kind = "b" -> {1, 2, 4, 7, 15, 23}
+                   [] s.kind = "b" -> {1, 2, 4, 7, LVal(7, T1), LVal(7, C1), LVal(7, B1), LVal(7, CBC)}
+                   [] s.kind = "g" -> {}                \* exists only together with parentheses: see the patterns
+                   [] s.kind = "o" -> {2, LVal(2, C1)}
+                   [] s.kind = "d" -> {LVal(7, C1), LVal(2, BC)}
 
 \* exhKeys: the sugar sites over which ALL legal choice functions are taken (when they are few enough)
-Variants(tops, from, exhKeys, maxProd) ==
+Variants(tops, from, exhKeys, maxProd, full) ==
     LET S == Sites(tops, from)
         IX == IndexMap(S)
         XS == SelectSeq(S, LAMBDA x : x.kind \in {"c", "t", "l"} /\ x.key \in exhKeys)
         R(pf) == Resolve(tops, from, pf)
+        RP(o) == R(Pattern(S, IX, o))
         exh == IF Len(XS) <= MaxExh /\ Product(XS, 1) <= maxProd THEN {R(pf) : pf \in AllPrefs(XS)} ELSE {}
         singles == UNION {{R(SingleOpt(IX, i, v)) : v \in SingleVals(S[i])}
                           : i \in {j \in 1..Len(S) : S[j].kind \in {"c", "t", "l"} \/ Len(S) <= MaxSingles}}
-        uniform == {R(Pattern(S, IX, v, 0, 0, 0, 0, 0)) : v \in 1..3}
-                   \cup {R(Pattern(S, IX, 0, 1, 0, 0, 0, 0)), R(Pattern(S, IX, 0, 0, 1, 0, 0, 0))}
-                   \cup {R(Pattern(S, IX, v, 1, 1, 0, 0, 0)) : v \in 1..3}
-                   \cup {R(Pattern(S, IX, 0, 0, 0, v, 0, 0)) : v \in 1..2}
-                   \cup {R(Pattern(S, IX, 0, 0, 0, 0, v, 0)) : v \in {1, 2, 4, 8, 15}}
-                   \cup {R(Pattern(S, IX, 0, 0, 0, 0, 0, v)) : v \in {1, 2, 4, 7, 15, 31}}
+        uniform == {RP(PV(v, 0, 0, 0, 0, 0)) : v \in 1..3}
+                   \cup {RP(PV(0, 1, 0, 0, 0, 0)), RP(PV(0, 0, 1, 0, 0, 0))}
+                   \cup {RP(PV(v, 1, 1, 0, 0, 0)) : v \in 1..3}
+                   \cup {RP(PV(0, 0, 0, v, 0, 0)) : v \in 1..2}
+                   \cup {RP(PV(0, 0, 0, 0, v, 0)) : v \in {1, 2, 4, 8, 15}}
                    \cup {R(WithIndent(E0, w)) : w \in {0, 1, 2, 8, 9}}
-        parens == {R(Pattern(S, IX, v, 1, 1, pv, 0, 0)) : v \in 1..3, pv \in 1..2}
+        \* every trivia sequence at every gap of every bracket-like construct (grouping: the parentheses the grammar needs)
+        layout == {RP(PV(0, 0, 0, 0, 0, LVal(7, t))) : t \in 0..(NTriv - 1)}
+                  \cup {RP(PV(0, 0, 0, 0, 0, LVal(m, t))) : m \in {1, 2, 4}, t \in {0, C1, TC, BC}}
+                  \cup {RP(PV(0, 0, 0, 1, 0, LVal(7, t))) : t \in {0, C1, BC, TCB}}        \* ... and around every expression
+                  \cup {RP(PV(v, 1, 1, 0, 0, LVal(7, t))) : v \in 1..3, t \in {0, C1, TBC}} \* prime / arrow calls inside broken brackets
+                  \cup {RP(PV(v, 1, 1, 1, 0, LVal(7, C1))) : v \in 1..3}
+                  \cup (IF full THEN {RP(PV(v, 1, 1, 0, 0, LVal(7, t))) : v \in {1, 3}, t \in 0..(NTriv - 1)} ELSE {})   \* skeletons: all trivia in prime argument lists
+        parens == {RP(PV(v, 1, 1, pv, 0, 0)) : v \in 1..3, pv \in 1..2}
         strided == {R(Strided(S, IX, {"p"}, 1, 3, r)) : r \in 0..2}
                    \cup {R(Strided(S, IX, {"s"}, 15, 2, r)) : r \in 0..1}
-                   \cup {R(Strided(S, IX, {"b"}, 31, 2, r)) : r \in 0..1}
+                   \cup {R(Strided(S, IX, {"b", "g", "o", "d"}, LVal(7, CBC), 2, r)) : r \in 0..1}
                    \cup {R(Strided(S, IX, {"c", "t", "l"}, v, 2, r)) : v \in 1..3, r \in 0..1}
-        kitchen == {R(WithIndent(Pattern(S, IX, v, 1, 1, 0, 15, 31), 2)) : v \in 1..3}
-                   \cup {R(WithIndent(Pattern(S, IX, v, 1, 1, 1, 3, 7), 9)) : v \in 1..3}
-                   \cup {R(WithIndent(Pattern(S, IX, v, 0, 1, 2, 12, 10), 0)) : v \in 1..3}
+        kitchen == {R(WithIndent(Pattern(S, IX, PV(v, 1, 1, 0, 15, LVal(7, TCB))), 2)) : v \in 1..3}
+                   \cup {R(WithIndent(Pattern(S, IX, PV(v, 1, 1, 1, 3, LVal(7, B1))), 9)) : v \in 1..3}
+                   \cup {R(WithIndent(Pattern(S, IX, PV(v, 0, 1, 2, 12, LVal(2, T1))), 0)) : v \in 1..3}
         mixes == {R(WithIndent(Mix(S, IX, Seed * 7 + a), (a * 3) % 10)) : a \in 1..NMix}
-    IN {R(E0)} \cup exh \cup singles \cup uniform \cup parens \cup strided \cup kitchen \cup mixes
+    IN {R(E0)} \cup exh \cup singles \cup uniform \cup layout \cup parens \cup strided \cup kitchen \cup mixes
 
 (* ---------------------------------------------------------------- programs *)
 HarnessFor(o, i) == HarnessNames(ResultType(o), UsesLocals(o) \/ UsesLocals(i))
@@ -212,7 +242,7 @@ ExhKeys(id, tops, from) ==
     IF id.u = "gen" THEN KeysOf(Sites(tops, from)) \ KeysOf(Sites(Harness(id.h, I(0), ResultType(id.o)), NPre + 1))
     ELSE KeysOf(Sites(tops, from))
 ProdOf(id) == IF id.u = "gen" THEN MaxProd ELSE SkMaxProd
-VariantsOf(id, tops, from) == Variants(tops, from, ExhKeys(id, tops, from), ProdOf(id))
+VariantsOf(id, tops, from) == Variants(tops, from, ExhKeys(id, tops, from), ProdOf(id), id.u # "gen")
 
 (* ---------------------------------------------------------------- state machine *)
 Rec == IF Mode \in {"validate", "pvalidate"} THEN ndJsonDeserialize(IOEnv.TRACE) ELSE <<>>
@@ -238,7 +268,7 @@ Emit == /\ Mode = "emit" /\ pc = "start" /\ pc' = "done" /\ k' = k
 
 \* the two preludes, once (the harness puts them in front of every focus)
 EmitPreludes == /\ Mode = "preludes" /\ pc = "start" /\ pc' = "done" /\ k' = k
-                /\ PrintT(<<"PRELUDE", ToJson([sk |-> SkPrelude, gen |-> Prelude])>>)
+                /\ PrintT(<<"PRELUDE", ToJson([sk |-> SkPrelude, gen |-> Prelude, triv |-> TrivSeqs])>>)
 \* the skeleton expressions of the token-level model, once
 EmitExprs == /\ Mode = "exprs" /\ pc = "start" /\ pc' = "done" /\ k' = k
              /\ \A j \in 1..Len(ModelExprSeq) : PrintT(<<"EXPR", ToJson([j |-> j, e |-> ModelExprSeq[j], path |-> ModelPath])>>)
